@@ -1098,7 +1098,13 @@ class Engine(MatrixTheory, NumpyTheory, Evaluator):
             for tgt, e in c.ghost_exit.items():
                 st.assume(self.eq(self.spec_eval(tgt, st), self.spec_eval(e, st), st))
             for lab, e in c.ensures:
-                st.assume(self.spec_truth(e, st))
+                t_ = self.spec_truth(e, st)
+                try:
+                    if getattr(t_, '_label', None) is None:
+                        t_._label = '%s.%s' % (c.qual.split('.')[-1], lab)       # `using` can name a callee's postcondition: 'callee.label'
+                except Exception:
+                    pass
+                st.assume(t_)
             for lab, e in c.defines:
                 self.assumed_used.add('A-DEF %s: %s' % (c.key, lab))
                 st.assume(self.spec_truth(e, st))
